@@ -125,6 +125,11 @@ class Tokenizer:
             else:
                 return m.group(0)
 
+        def _repl_uri(m):
+            "a quote written as unicode escape stays escaped (it delimits nothing)"
+            char = _repl(m)
+            return '\\' + char if char in '\'"' else char
+
         def _normalize(value):
             "normalize and do unicodesub"
             return normalize(self.unicodesub(_repl, value))
@@ -230,7 +235,9 @@ class Tokenizer:
                                 # (first, else a newline written as \a is taken
                                 # for one)
                                 value = self.cleanstring('', value)
-                            value = self.unicodesub(_repl, value)
+                            value = self.unicodesub(
+                                _repl_uri if 'URI' == name else _repl, value
+                            )
                             if 'COMMENT' == name and '*/' in value[2:-2]:
                                 # an escape does not end the comment
                                 value = found
